@@ -180,7 +180,10 @@ def _anyof_flatten_cycle(nodes):
     """input-derived: is there a cycle made only of `anyOf [$ref ..]` branches (flattened members whose type is again such a struct)?
     serde's flatten adapters are instantiated recursively along it (known finding: recursion limit while instantiating)."""
     nxt = {i: [t for (k, t) in nd[1] if k == "newtype"] for i, nd in enumerate(nodes) if nd[0] == "anyof"}
-    for s in nxt:
+    nxt.update({i: [nd[1]] for i, nd in enumerate(nodes) if nd[0] == "alias"})   # an alias definition is the type it names
+    if not any(nd[0] == "anyof" for nd in nodes):
+        return False
+    for s in [i for i, nd in enumerate(nodes) if nd[0] == "anyof"]:
         seen, st = set(), [s]
         while st:
             u = st.pop()
@@ -399,6 +402,8 @@ def execute(cases_, tier, seed):
                 res.violations.append(Violation(c["key"], "compile:" + ",".join(codes), "recursive types do not compile: %s" % wc.errors[0]["msg"], c,
                                                 expected="compiles", observed=wc.errors[:5], features=feats))
                 continue
+            if any(nd[0] == "anyof" for nd in c["nodes"]):
+                continue   # structs of flattened Option subtypes do not round-trip (C03-KF4 / C02-KF3): for these graphs the compile result is the observation
             orc = oracle.Oracle(c["doc"])
             bad = []
             for rec in wc.instances:
